@@ -10,13 +10,7 @@ package main
 import (
 	"fmt"
 	"os"
-	"runtime"
-	"sync"
-	"sync/atomic"
-	"time"
 
-	"github.com/google/mtail/internal/metrics"
-	"github.com/google/mtail/internal/metrics/datum"
 
 	"github.com/google/mtail/internal/zzverif/mrun"
 	"github.com/google/mtail/internal/zzverif/vlib"
@@ -72,50 +66,6 @@ func alphabet(c cfg, r *vlib.Rand) []mrun.Op {
 	}
 	ops = append(ops, mrun.Op{K: "emit"})
 	return ops
-}
-
-// concurrentCreate: 8 goroutines GetDatum+IncIntBy the same not-yet-existing
-// tuple; afterwards the enumeration must list that tuple exactly once with the
-// sum of the increments.
-func concurrentCreate(trials int) (string, string) {
-	for tr := 0; tr < trials; tr++ {
-		m := metrics.NewMetric("m", "prog", metrics.Counter, metrics.Int, "k0")
-		var wg sync.WaitGroup
-		var ready, gate int32
-		for g := 0; g < 8; g++ {
-			wg.Add(1)
-			go func() {
-				defer wg.Done()
-				atomic.AddInt32(&ready, 1)
-				for atomic.LoadInt32(&gate) == 0 { // spin barrier: release all at once
-				}
-				d, err := m.GetDatum("new")
-				if err == nil {
-					datum.IncIntBy(d, 1, time.Unix(1, 0))
-				}
-			}()
-		}
-		for atomic.LoadInt32(&ready) < 8 {
-			runtime.Gosched()
-		}
-		atomic.StoreInt32(&gate, 1)
-		wg.Wait()
-		n, sum := 0, int64(0)
-		for _, lv := range m.LabelValues {
-			if len(lv.Labels) == 1 && lv.Labels[0] == "new" {
-				n++
-				sum += datum.GetInt(lv.Value)
-			}
-		}
-		if n != 1 {
-			return "concurrent-create-duplicates", fmt.Sprintf("trial %d: tuple [new] is listed %d times after 8 concurrent first lookups", tr, n)
-		}
-		if d, _ := m.GetDatum("new"); datum.GetInt(d) != 8 {
-			return "concurrent-create-lost-update", fmt.Sprintf("trial %d: 8 increments, the tuple's datum holds %d", tr, datum.GetInt(d))
-		}
-		_ = sum
-	}
-	return "", ""
 }
 
 func main() {
@@ -262,7 +212,7 @@ func main() {
 	if a.Thorough() {
 		trials = 40000
 	}
-	if cl, what := concurrentCreate(trials); cl != "" {
+	if cl, what := mrun.ConcurrentCreate(trials); cl != "" {
 		out.Violate(cl, what, map[string]any{"kind": "concurrent-create", "trials": trials})
 	}
 	out.Flush("every operation sequence up to the stated length over {get,set,inc,remove,expire}x{3 tuples, one of wrong arity}+{emit} for the first configurations, plus random sequences of length 5..200 for every (kind,type); a final emit is appended; non-trivial = at least one successful creation and at least one remove/expire; distinct by hash of the full case", false)
